@@ -40,7 +40,8 @@ QUICK_VALUES = [
     (True, "bool"), (False, "bool"),
     (NONE_STR, "Optional[int]"),
     ("foo", "str"), ("two words", "str"), ("3", "str"), ("a.b", "str"), ("", "str"), ("it's", "str"),
-    ("-", "str"), ("mnist", "str"), ("e.g. this", "str"), ("~/tensorflow_datasets", "str"),
+    ("-", "str"), ("mnist", "str"), ('say "hi" now', "str"), ('say "hi" now', "Optional[str]"), ('a"b', "Union[str, int]"),
+    ("it's", "Optional[str]"), ("two words", "Optional[str]"), ("e.g. this", "str"), ("~/tensorflow_datasets", "str"),
     # literal-looking strings under compound types that admit str only as one alternative / element
     ("5", "Union[str, int]"), ("-3", "Optional[Union[str, float]]"), ("True", "Union[str, int]"), ("1e3", "List[str]"),
     ("0.5", "Optional[Literal['0.5', 'x']]"),
@@ -208,6 +209,15 @@ class C17(core.Check):
                 for ph in range(len(PHRASES)):
                     for rm in (False, True):
                         cases.append({"k": "raw", "prose": p, "raw": raw, "typ": typ, "want": want, "phrase": PHRASES[ph], "remove": rm})
+        # announcement phrases of the caller's own (default_search_announce given as one string or as several)
+        for p in PROSE[:5]:
+            for v, t in ((5, "int"), (-3, "int"), (0.25, "float"), (True, "bool"), ("mnist", "str"), ("two words", "str")):
+                for ph, ann in (("Default is ", "Default is "), ("By default ", ("Initially ", "By default ")),
+                                ("defaults to ", ("Default is ", "defaults to ")), ("Initially ", ["Initially "])):
+                    for declared in (False, True):
+                        for rm in (False, True):
+                            cases.append({"k": "custom", "prose": p, "value": v, "typ": t if declared else None, "phrase": ph,
+                                          "announce": ann, "remove": rm})
         return core.Listed(cases, note="prose x value x typ x phrase x removal + plain prose + hand-written value text x declared type")
 
     # ------------------------------------------------------------------ oracle pieces
@@ -247,6 +257,8 @@ class C17(core.Check):
 
         if case["k"] == "raw":
             return self.run_raw(case)
+        if case["k"] == "custom":
+            return self.run_custom(case)
         p, v, t, ph, rm = case["prose"], case["value"], case["typ"], case["phrase"], case["remove"]
         facts = dict(prose_facts(p), **value_facts(v, t))
         facts.update(phrase=ph.strip() or ph, remove=rm)
@@ -358,5 +370,49 @@ def _run_raw(self, case):
 
 
 C17.run_raw = _run_raw
+
+
+def _run_custom(self, case):
+    from doctrans.defaults_utils import extract_default, set_default_doc
+    from doctrans.emitter_utils import interpolate_defaults
+
+    p, v, t, ph, ann, rm = case["prose"], case["value"], case["typ"], case["phrase"], case["announce"], case["remove"]
+    facts = dict(prose_facts(p), **value_facts(v, t))
+    facts.update(kind="custom", phrase=ph.strip(), announce_form=type(ann).__name__, remove=rm)
+    param = {"doc": p, "default": v}
+    if t:
+        param["typ"] = t
+    _, q = set_default_doc(("a", dict(param)), emit_default_doc=True)
+    marker = " Defaults to "
+    i = q["doc"].index(marker, len(p) - 1)
+    text = q["doc"][:i] + " " + ph + q["doc"][i + len(marker):]
+    accepted_prose = {wsn(p)} if p[-1] in ".," else {wsn(p), wsn(p) + "."}
+    sites = []
+    try:
+        doc, got = extract_default(text, typ=t, default_search_announce=ann, emit_default_doc=not rm)
+        sites.append(site(self.value_ok(v, got, exact_str=False), dict(facts, op="extract.value"), fail="value", got=repr(got)))
+        if rm:
+            sites.append(site(wsn(doc) in accepted_prose, dict(facts, op="extract.prose"), fail="prose", got=core.short(doc)))
+        else:
+            sites.append(site(doc == text, dict(facts, op="extract.prose"), fail="text_changed", got=core.short(doc)))
+    except Exception as e:
+        sites.append(site(False, dict(facts, op="extract"), fail="raise", **core.exc_obs(e)))
+    try:
+        par = {"doc": text}
+        if t:
+            par["typ"] = t
+        _, got_p = interpolate_defaults(("a", par), default_search_announce=ann, emit_default_doc=not rm)
+        sites.append(site("default" in got_p and self.value_ok(v, got_p["default"], exact_str=True), dict(facts, op="interp.value"),
+                          fail="value", got=repr(got_p.get("default", "<absent>"))))
+        if rm:
+            sites.append(site(wsn(got_p["doc"]) in accepted_prose, dict(facts, op="interp.prose"), fail="prose", got=core.short(got_p["doc"])))
+        else:
+            sites.append(site(got_p["doc"] == text, dict(facts, op="interp.prose"), fail="text_changed", got=core.short(got_p["doc"])))
+    except Exception as e:
+        sites.append(site(False, dict(facts, op="interp"), fail="raise", **core.exc_obs(e)))
+    return sites, [text, rm, "custom", repr(ann)], [text, rm, repr(ann), [s["ok"] for s in sites]]
+
+
+C17.run_custom = _run_custom
 
 CHECK = C17
